@@ -104,7 +104,9 @@ def random_history(rnd, p, length):
     bps = p.avail + p.avail + [hx(b'm') + ':%d' % rnd.randint(0, 30), hx(b'zz') + ':1']
     for _ in range(length):
         k = rnd.random()
-        if k < 0.3:
+        if k < 0.12:
+            hist.append('v')       # inspect every activation and the locations
+        elif k < 0.3:
             hist.append('s')
         elif k < 0.5:
             hist.append('e')
@@ -119,6 +121,20 @@ def random_history(rnd, p, length):
         else:
             hist.append(rnd.choice(['t1', 't0']))
     return hist
+
+
+def expected_view(p, e):
+    """the name -> value view of every activation of the path state `e`, computed from its raw memory and the stack maps"""
+    data = lst(e['data'], '.')
+    out = []
+    for fr in lst(e['stk'], ','):
+        start, size, rt, ra, dbg = [int(x) for x in fr.split('/')]
+        name, m = p.maps[dbg]
+        view = {}
+        for reg in sorted(m):
+            view[m[reg]] = data[start + reg]
+        out.append(name + '@' + (','.join('%s=%s' % (k, view[k]) for k in sorted(view)) or '-'))
+    return '/'.join(out) or '-'
 
 
 def expected_history(p, path, hist):
@@ -261,14 +277,24 @@ def debugger_suite(ctx, n_random, hist_len, exhaustive_len, big=False):
         p = c['prog']
         l1 = p.avail[0] if p.avail else hx(b'm') + ':1'
         l2 = p.avail[-1] if p.avail else hx(b'm') + ':2'
-        alpha = ['s', 'e', 'b:' + l1, 'd:' + l1, 'b:' + l2, 'c', 't1', 't0', 'r']
+        alpha = ['s', 'e', 'v', 'b:' + l1, 'd:' + l1, 'b:' + l2, 'c', 't1', 't0', 'r']
         for ln in range(1, exhaustive_len + 1):
             for h in itertools.product(alpha, repeat=ln):
                 jobs.append((c, list(h)))
     nex = len(jobs)
     for c in keep:
         for _ in range(2 if c['defs'] is not None else 4):
-            jobs.append((c, random_history(ctx.rnd, c['prog'], ctx.rnd.randint(5, hist_len))))
+            jobs.append((c, random_history(ctx.rnd, c['prog'], ctx.rnd.randint(5, hist_len)) + ['v']))
+    # call-stack views between the steps: stepping with a view at every stop; single steps with views at random points
+    for c in keep:
+        r = ctx.rnd
+        jobs.append((c, ['t1'] + ['e', 'v'] * r.randint(3, 25) + ['t0', 'c'] + ['s', 'v'] * r.randint(3, 30)))
+        h = []
+        for _ in range(r.randint(10, 120)):
+            h.append('s')
+            if r.random() < 0.4:
+                h.append('v')
+        jobs.append((c, h + ['v']))
     # every available line enabled at once, then run: a stale or misplaced site shows up as a changed computation
     for c in keep:
         if c['defs'] is not None and len(c.get('files', {})) > 1:
@@ -307,6 +333,10 @@ def check_history_oracles(ctx, jobs, a, which):
             if d['r'] == '1' and op in ('s', 'e') and d['done'] == '0':
                 nstops += 1
             if 'C05' in which:
+                if 'acts' in d and (d['ip'], d['data'], d['stk']) == (e['ip'], e['data'], e['stk']) and d['acts'] != expected_view(p, e):
+                    ctx.violation('wrong-variable-view', 'after call %d (%s) the variables reported for the activations (%s) are not those of the uninterrupted run at the same point (%s)' % (
+                        i, op, d['acts'][:300], expected_view(p, e)[:300]), {'source': c['text'], 'history': h[:i + 1]})
+                    break
                 if (d['ip'], d['data'], d['stk']) != (e['ip'], e['data'], e['stk']):
                     ctx.violation('off-path', 'after call %d (%s) the machine left the uninterrupted path: ip=%s data=%s, path[%d] has ip=%s data=%s' % (
                         i, op, d['ip'], d['data'], e['k'], e['ip'], e['data']), {'source': c['text'], 'history': h[:i + 1]})
